@@ -192,3 +192,45 @@ func VerifExtremeWrapper(magic int8, codec int8, level int, payload []byte, nmsg
 	}
 	return wire, ""
 }
+
+// ---------------------------------------------------------------------------------------------- encode histories
+
+// VerifFailingEncode runs the package's encode() on an input that must be refused, and returns the error:
+//   kind 0: a valid body with MaxRequestSize lowered below its size for the duration of the call (the sizing
+//           pass succeeds, the size check refuses)
+//   kind 1: a request with a string longer than MaxInt16 (the sizing pass fails half-way)
+//   kind 2: a produce request whose message has a timestamp before the epoch (the sizing pass fails inside
+//           nested length/CRC fields, i.e. with a non-empty push stack)
+//   kind 3: an OffsetFetchRequest that asks for RequireStable below v7 (fails after the partitions were sized)
+func VerifFailingEncode(kind int, valid interface{}) error {
+	switch kind {
+	case 0:
+		e, ok := valid.(encoder)
+		if !ok {
+			return fmt.Errorf("not an encoder")
+		}
+		old := MaxRequestSize
+		MaxRequestSize = 0
+		defer func() { MaxRequestSize = old }()
+		_, err := encode(e, nil)
+		return err
+	case 1:
+		long := make([]byte, 40000)
+		for i := range long {
+			long[i] = 'a'
+		}
+		_, err := encode(&MetadataRequest{Version: 1, Topics: []string{"t1", string(long), "t2"}}, nil)
+		return err
+	case 2:
+		req := &ProduceRequest{Version: 2, RequiredAcks: WaitForAll, Timeout: 100}
+		req.AddMessage("topic", 3, &Message{Version: 1, Value: []byte("v"), Timestamp: time.Unix(-5, 0)})
+		_, err := encode(req, nil)
+		return err
+	default:
+		req := &OffsetFetchRequest{Version: 3, ConsumerGroup: "g", RequireStable: true}
+		req.AddPartition("topic", 1)
+		req.AddPartition("other", 2)
+		_, err := encode(req, nil)
+		return err
+	}
+}
